@@ -355,6 +355,14 @@ class SimAdapter:
             out["sim"] = "EXC:" + type(e).__name__
         if t["measurement"] and sim is not None:
             try:
+                # filter the simulated data with the anticipated shocks taken from the data: this is the reader of the
+                # triangular forward expansion (the simulation above is the reader of the square one)
+                kfa = quiet(lambda: m.kalman_filter(sim, span, shocks_from_data=True))
+                names = [q.human for q in m.quantities if "TRANSITION_VARIABLE" in str(q.kind)]
+                out["smooth_ant"] = {n: cols(kfa["smooth_med"][n]) for n in names if n in kfa["smooth_med"]}
+            except Exception as e:
+                out["smooth_ant"] = "EXC:" + type(e).__name__
+            try:
                 kf, info = quiet(lambda: m.kalman_filter(sim, span, return_info=True))
                 infos = info if isinstance(info, (list, tuple)) else [info]
                 out["nll"] = byv([fl(i["neg_log_likelihood"]) for i in infos])
@@ -409,7 +417,16 @@ class SimAdapter:
             m.systemize()
         elif k == "kalman":
             db = ir.Databox.steady(m, span)
-            quiet(lambda: m.kalman_filter(db, span))
+            if r.get("ant") and t["shocks"]:
+                aname = "ant_" + t["shocks"][0]
+                if aname in db:
+                    db[aname][span[0] + r.get("horizon", 2)] = 1.0
+                quiet(lambda: m.kalman_filter(db, span, shocks_from_data=True))
+            else:
+                quiet(lambda: m.kalman_filter(db, span))
+        elif k == "iterate":
+            pieces = list(m)
+            return pieces
         elif k == "view":
             v = m.get_variant(r.get("v", 0) % m.num_variants)
             v.get_parameters()
